@@ -1675,22 +1675,29 @@ Proof.
   subst c. now rewrite H.
 Qed.
 
-Definition ps_ev (f : nat) (files : list (bytes * bytes)) : gstate -> bytes -> option gstate :=
+Definition ps_ev (f : nat) (files : list (bytes * bytes)) (dir : bytes) : gstate -> bytes -> option gstate :=
   fun g l =>
     match evaluate_line l with
     | LError => None
-    | LRule d => Some (mk_g (g_inc g) (d :: g_rules g))
+    | LRule d => Some (mk_g (g_inc g) (d :: g_rules g) (dir :: g_dirs g))
+    | LUpdate fields =>
+      match apply_update fields (rev (g_rules g)) with
+      | None => None
+      | Some rules => Some (mk_g (g_inc g) (rev rules) (g_dirs g))
+      end
     | LInclude path =>
       if max_include <=? g_inc g then None
-      else match p_assoc (p_trim_space path) files with
+      else let p := from_file_path dir path in
+           match p_assoc p files with
            | None => None
-           | Some content => parse_string f files (mk_g (g_inc g + 1) (g_rules g)) content
+           | Some content =>
+             parse_string f files (path_dir p) (mk_g (g_inc g + 1) (g_rules g) (g_dirs g)) content
            end
     end.
 
-Lemma parse_string_S f files g text :
-  parse_string (S f) files g text =
-  match ps_loop (ps_ev f files) (scanner_lines (split_lines text)) [] false g with
+Lemma parse_string_S f files dir g text :
+  parse_string (S f) files dir g text =
+  match ps_loop (ps_ev f files dir) (scanner_lines (split_lines text)) [] false g with
   | None => None
   | Some g' => if scanner_truncated (split_lines text) then None else Some g'
   end.
@@ -1706,7 +1713,7 @@ Proof.
   assert (Hcr : (p_last l =? cCR) = false).
   { unfold nsp, p_is_ascii_space in Hl. apply andb_prop in Hl as [_ Hl]. apply negb_true_iff in Hl.
     repeat (apply orb_false_elim in Hl as [Hl ?]). assumption. }
-  assert (Hloop : forall g, ps_loop (ps_ev 101 files) [l] [] false g = Some (mk_g (g_inc g) (d :: g_rules g))).
+  assert (Hloop : forall g, ps_loop (ps_ev 101 files []) [l] [] false g = Some (mk_g (g_inc g) (d :: g_rules g) ([] :: g_dirs g))).
   { intros g. cbn [ps_loop]. rewrite (p_trim_space_id l 0 Hne Hh Hl).
     destruct l as [|c0 t]; [congruence|]. cbn [hd] in Hhash. rewrite Hhash, Hbt, Hbs. cbn [negb andb app].
     cbn match. unfold ps_ev at 1. rewrite Hev. reflexivity. }
@@ -1898,18 +1905,18 @@ Qed.
 
 (* repaired (F54): a text with such a line is rejected as a whole (scanner.Err() is returned);
    before the repair everything after the long line was ignored without an error *)
-Theorem parse_string_long_line_rejected f files g text :
-  scanner_truncated (split_lines text) = true -> parse_string (S f) files g text = None.
+Theorem parse_string_long_line_rejected f files dir g text :
+  scanner_truncated (split_lines text) = true -> parse_string (S f) files dir g text = None.
 Proof.
   intros H. rewrite parse_string_S, H.
-  destruct (ps_loop (ps_ev f files) (scanner_lines (split_lines text)) [] false g); reflexivity.
+  destruct (ps_loop (ps_ev f files dir) (scanner_lines (split_lines text)) [] false g); reflexivity.
 Qed.
 
 Theorem parse_config_long_line_rejected files text :
   scanner_truncated (split_lines text) = true -> parse_config files text = None.
 Proof.
   intros H. unfold parse_config. change include_fuel with (S 101).
-  now rewrite (parse_string_long_line_rejected 101 files (mk_g 0 []) text H).
+  now rewrite (parse_string_long_line_rejected 101 files [] (mk_g 0 [] []) text H).
 Qed.
 
 (* repaired (F55): a pending continuation at the end of the text is an error, in any state *)
@@ -1923,3 +1930,60 @@ Proof.
   change (cBS =? cBT) with false. change (cBS =? cBS) with true. cbn [andb negb]. cbn match.
   rewrite removelast_last. destruct buf; reflexivity.
 Qed.
+
+(* ------------------------------------------------------------------------------------ *)
+(* Part 11: ConfigDir of a rule; SecRuleUpdateTargetById spellings                      *)
+(* ------------------------------------------------------------------------------------ *)
+(* a rule is compiled with the directory of the file whose line it is, in EVERY parser state
+   (in particular in the state an Include of a file of another directory has returned) *)
+Theorem ps_ev_rule_dir f files dir g l d : evaluate_line l = LRule d ->
+  ps_ev f files dir g l = Some (mk_g (g_inc g) (d :: g_rules g) (dir :: g_dirs g)).
+Proof. intros H. unfold ps_ev. now rewrite H. Qed.
+
+(* the data file of a rule compiled in [dir] is the file the flat configuration names by its full path *)
+Theorem resolve_data_flat files dir o :
+  resolve_data files dir o = resolve_data files [] (mk_op (o_fn o) (o_name o) (o_neg o) (path_join dir (o_arg o))).
+Proof. reflexivity. Qed.
+
+Lemma rule_id_add_targets ts d : rule_id (add_targets ts d) = rule_id d.
+Proof. reflexivity. Qed.
+
+Lemma id_in_single z d : id_in z z d = id_is z d.
+Proof.
+  unfold id_in, id_is. destruct (Z.eqb_spec (Z.of_N (rule_id d)) z) as [E|E].
+  - rewrite E, Z.leb_refl. reflexivity.
+  - apply andb_false_iff. destruct (Z.leb_spec z (Z.of_N (rule_id d))); [right; apply Z.leb_gt; lia|now left].
+Qed.
+
+(* with distinct ids, updating the single id z is the range update z-z *)
+Theorem upd_first_eq_range z ts rules : NoDup (map rule_id rules) ->
+  upd_first z ts rules = upd_range z z ts rules.
+Proof.
+  induction rules as [|d r IH]; intros Hnd; [reflexivity|].
+  cbn [map] in Hnd. inversion Hnd as [|x l Hni Hnd']; subst.
+  cbn [upd_first]. unfold upd_range. cbn [map]. rewrite id_in_single.
+  destruct (id_is z d) eqn:E.
+  - f_equal. symmetry. rewrite <- (map_id r) at 2. apply map_ext_in. intros e He.
+    rewrite id_in_single. destruct (id_is z e) eqn:Ee; [|reflexivity].
+    exfalso. apply Hni. unfold id_is in E, Ee. apply Z.eqb_eq in E, Ee.
+    assert (rule_id e = rule_id d) by lia. rewrite <- H. now apply in_map.
+  - f_equal. apply IH. exact Hnd'.
+Qed.
+
+(* a range may be split at any point: a-m followed by (m+1)-b is a-b *)
+Theorem upd_range_split a m b ts rules : (a <= m)%Z -> (m < b)%Z ->
+  upd_range (m + 1) b ts (upd_range a m ts rules) = upd_range a b ts rules.
+Proof.
+  intros H1 H2. unfold upd_range. rewrite map_map. apply map_ext. intros d.
+  unfold id_in.
+  destruct (Z.leb_spec a (Z.of_N (rule_id d))), (Z.leb_spec (Z.of_N (rule_id d)) m); cbn [andb];
+    change (rule_id (add_targets ts d)) with (rule_id d);
+    destruct (Z.leb_spec (m + 1) (Z.of_N (rule_id d))), (Z.leb_spec (Z.of_N (rule_id d)) b); cbn [andb];
+    try reflexivity; lia.
+Qed.
+
+(* a range update adds the positive targets and the exclusions to every rule of the range and
+   to no other rule *)
+Theorem upd_range_spec a b ts rules d : In d (upd_range a b ts rules) ->
+  exists d0, In d0 rules /\ d = (if id_in a b d0 then add_targets ts d0 else d0).
+Proof. unfold upd_range. intros H. apply in_map_iff in H as (d0 & E & Hin). exists d0. now split. Qed.
